@@ -7,6 +7,7 @@ import (
 	"fmt"
 	"os"
 	"path/filepath"
+	"regexp"
 	"sort"
 	"strings"
 	"time"
@@ -81,6 +82,8 @@ type Exception struct {
 	Reason string
 	// Prefix: the exception covers every key that starts with Key
 	Prefix bool
+	// Pattern: Key is a regular expression over construct keys
+	Pattern bool
 }
 
 type Floor struct {
@@ -115,7 +118,9 @@ func Decide(prop string, set *Set, exceptions []Exception, known []KnownFinding,
 	exc := map[string]string{}
 	usedExc := map[string]bool{}
 	for _, e := range exceptions {
-		exc[e.Key] = e.Reason
+		if !e.Prefix && !e.Pattern {
+			exc[e.Key] = e.Reason
+		}
 	}
 	kn := map[string]KnownFinding{}
 	usedKn := map[string]bool{}
@@ -135,7 +140,7 @@ func Decide(prop string, set *Set, exceptions []Exception, known []KnownFinding,
 		}
 		pref := false
 		for _, e := range exceptions {
-			if e.Prefix && strings.HasPrefix(o.Key, e.Key) {
+			if (e.Prefix && strings.HasPrefix(o.Key, e.Key)) || (e.Pattern && matchKey(e.Key, o.Key)) {
 				seenKeys[e.Key] = true
 				if !o.OK {
 					o.Exception = e.Reason
@@ -157,9 +162,9 @@ func Decide(prop string, set *Set, exceptions []Exception, known []KnownFinding,
 		}
 		out.Violations = append(out.Violations, *o)
 	}
-	for k := range exc {
-		if !seenKeys[k] {
-			out.Stale = append(out.Stale, "exception "+k+" matches no construct (stale)")
+	for _, e := range exceptions {
+		if !seenKeys[e.Key] {
+			out.Stale = append(out.Stale, "exception "+e.Key+" matches no construct (stale)")
 		}
 	}
 	for k := range kn {
@@ -174,6 +179,11 @@ func Decide(prop string, set *Set, exceptions []Exception, known []KnownFinding,
 		}
 	}
 	return out
+}
+
+func matchKey(pattern, key string) bool {
+	re, err := regexp.Compile(pattern)
+	return err == nil && re.MatchString(key)
 }
 
 func (o *Outcome) Failed() bool {
